@@ -4,7 +4,7 @@ from tools import vlib, t3
 from tools import ks
 
 MODULE = "PropC03"
-THEOREMS = ["C03_code_conforms", "C03_complete_is_result", "C03_converges", "C03_any_history", "C03_any_history_run", "C03_no_reexecution", "C03_refuses_leftovers", "C03_midfinalize_refuted"]
+THEOREMS = ["C03_code_conforms", "C03_complete_is_result", "C03_converges", "C03_any_history", "C03_any_history_run", "C03_no_reexecution", "C03_refuses_leftovers", "C03_midfinalize_refuted", "C03_cone_conforms"]
 
 
 def workflows(rng, k):
